@@ -98,7 +98,7 @@ class SearchImplementation(SearchFacade):
         '''
         items: [str] = []
         pks: [()] = self._prime_keys(parameters)
-        for pk in pks[index:limit]:
+        for pk in pks[index : (index + limit) if limit is not None else None]:
             rid = f'{pk[0]}'
             tgt = dissect(DBI().indices.target[pk[1]])[1]
             tn = dissect(DBI().indices.task[pk[2]])[1]
